@@ -702,13 +702,9 @@ class VMF:
 
         _remove_copyset(self.by_class, item['classname'].casefold(), item)
         _remove_copyset(self.by_target, item['targetname'].casefold() or None, item)
-        if 'nodeid' in item:
-            try:
-                node_id = int(item['nodeid'])
-            except (TypeError, ValueError):
-                pass
-            else:
-                self.node_id.discard(node_id)
+        # The node ID stays reserved while the entity still has it in its nodeid keyvalue. Changing or
+        # deleting that keyvalue releases it, as does Entity.__del__(). Releasing it here as well meant the
+        # next change to the removed entity (or re-adding it) released it a second time, by then owned by another node.
 
         # The entity keeps its ID for as long as the object exists (it can be re-added), Entity.__del__()
         # is what releases it. Releasing it here as well let two live entities end up with the same ID.
@@ -3122,6 +3118,12 @@ class Entity(MutableMapping[str, str]):
     def __del__(self) -> None:
         """Forget this entity's ID when the object is destroyed."""
         self.map.ent_id.discard(self.id)
+        try:
+            node_id = int(self['nodeid'])
+        except (TypeError, ValueError):
+            pass
+        else:
+            self.map.node_id.discard(node_id)
 
     def get_bbox(self) -> tuple[Vec, Vec]:
         """Get two vectors representing the space this entity takes up."""
